@@ -141,6 +141,31 @@ pub fn morpheme_variants(code: &str, n: u64) -> Vec<Vec<String>> {
     out
 }
 
+/// How many times the conjunction occurs in a spelled phrase (as a word of its own, or glued inside a German / Dutch
+/// compound).
+pub fn conj_occurrences(code: &str, text: &str) -> usize {
+    let lower = text.to_lowercase();
+    let conj = info(code).conj;
+    let mut n = 0;
+    for w in lower.split(|c: char| c.is_whitespace() || c == '-') {
+        if w.is_empty() {
+            continue;
+        }
+        if w == conj {
+            n += 1;
+            continue;
+        }
+        let mut out = Vec::new();
+        match code {
+            "de" => de::segment_keep_conj(w, &mut out),
+            "nl" => nl::segment_keep_conj(w, &mut out),
+            _ => {}
+        }
+        n += out.iter().filter(|m| m.as_str() == "&").count();
+    }
+    n
+}
+
 /// Segment a spelled cardinal into canonical morphemes.
 pub fn morphemes_of_text(code: &str, text: &str) -> Vec<String> {
     let lower = text.to_lowercase();
